@@ -317,6 +317,13 @@ fn make_seg(rng: &mut Rng, o: &NetOpts, z0: f64, z1_target: Option<f64>, typed: 
         let k = rng.usize(1, 3);
         let mut cuts: Vec<f64> = (0..2 * k).map(|_| q(rng.range(0.0, len), ex)).collect();
         cuts.sort_by(|a, b| a.partial_cmp(b).unwrap());
+        if k >= 2 && rng.chance(0.3) {
+            // adjoining sections: one ends exactly where the next begins (no overlap, no gap)
+            cuts[2] = cuts[1];
+            if !flags.contains(&"adjoining_catenary_sections") {
+                flags.push("adjoining_catenary_sections");
+            }
+        }
         for c in cuts.chunks(2) {
             if c[1] > c[0] {
                 cat.push((c[0], c[1], *rng.pick(&[1.0e6, 5.0e6, 8.0e6])));
